@@ -20,10 +20,12 @@ from harness.core import run_driver
 import FlowCal.io  # noqa
 
 
-def one_step(objs, how, o, protos):
+def one_step(objs, how, o, protos, store=None):
     lab = detail = None
     src = objs[o - 1]
-    if how.startswith('mutate_'):
+    if how == 'load':
+        objs.append(store.load())
+    elif how.startswith('mutate_'):
         hr.mutate(src, how[7:])
     elif how == 'readonly':
         before = [hr.fingerprint(x) for x in objs]
@@ -58,7 +60,7 @@ def replay_state(chk, store, st, pid, idx, protos):
     detail = None
     for step, (how, o) in enumerate(hist):
         try:
-            lab, detail = one_step(objs, how, o, protos)
+            lab, detail = one_step(objs, how, o, protos, store)
         except Exception as e:  # noqa  - the library raised inside an operation of the history
             lab, detail = 'operation-raised/%s/%s' % (how, type(e).__name__), str(e)[:120]
         if lab:
@@ -80,7 +82,7 @@ def replay_state(chk, store, st, pid, idx, protos):
 
 def heap_part(chk, pid, store, thin=1):
     cfgt = ('SPECIFICATION Spec\nCONSTANTS MaxOps = %d\nMaxObjs = 4\nINVARIANT NoSharedMeta\nINVARIANT BufSharing\n'
-            'PROPERTY Independent\nPROPERTY ReadOnlyPreserves\nPROPERTY DupBornEqual\n')
+            'PROPERTY Independent\nPROPERTY ReadOnlyPreserves\nPROPERTY DupBornEqual\nPROPERTY LoadPristine\n')
     depth = 2 if chk.quick else 3
     res = tlc.require_ok(tlc.run_tlc('Heap', cfgt % depth, dump=True), 'Heap')
     chk.add_tlc(res, 'Heap[MaxOps=%d]' % depth)
@@ -103,7 +105,7 @@ def heap_part(chk, pid, store, thin=1):
             chk.negative_control(bad != spec, 'store comparison is insensitive to a shared inner range list')
             neg = True
     if chk.quick:
-        res = tlc.run_tlc('Heap', cfgt.replace('PROPERTY Independent\nPROPERTY ReadOnlyPreserves\nPROPERTY DupBornEqual\n', '') % 3,
+        res = tlc.run_tlc('Heap', cfgt.replace('PROPERTY Independent\nPROPERTY ReadOnlyPreserves\nPROPERTY DupBornEqual\nPROPERTY LoadPristine\n', '') % 3,
                           simulate=(1500, 5), workers=1, seed=chk.seed)
         if res.violated or 'Error' in res.stdout:
             raise tlc.MachineryError('Heap simulate: ' + res.stdout[-1500:])
